@@ -41,6 +41,7 @@ type EngScenario struct {
 	Lookups  []int      `json:"lookups"`  // post-run GetComponentByName calls
 	Seed     int64      `json:"seed"`
 	Sparse   bool       `json:"sparse"`   // snapshots list only non-empty entries (large N)
+	ILook    []int      `json:"ilook"`    // per node: the component its Init() looks up by name through the App (0 = none)
 	Procs    []bool     `json:"procs"`    // user post-processors that are components themselves; true = LazyInit
 	Mode     []string   `json:"mode"`     // per node: normal | beforeNil | shortcut (lifecycle imposed by the rig processor)
 	Quiet    bool       `json:"quiet"`    // a user instantiation-aware processor ordered FIRST that answers false to PostProcessAfterInstantiation
@@ -106,7 +107,16 @@ func (b *base) NodeID() int               { return b.id }
 func (b *base) Naming() string            { return nodeName(b.id) }
 func (b *base) Qualifier() string         { return fmt.Sprintf("q%d", b.id) }
 func (b *base) AfterPropertiesSet() error { return b.e.cb("aps", b.id) }
-func (b *base) Init() error               { return b.e.cb("init", b.id) }
+func (b *base) Init() error {
+	// a service-locator call from inside the initialisation callback: the target may be lazy and may depend back on this
+	// component, which closes a cycle during initialisation rather than population
+	if il := b.e.sc.ILook; len(il) >= b.id && il[b.id-1] != 0 && b.e.ap != nil {
+		if _, err := b.e.ap.GetComponentByName(nodeName(il[b.id-1])); err != nil {
+			return err
+		}
+	}
+	return b.e.cb("init", b.id)
+}
 
 func nodeName(id int) string { return fmt.Sprintf("n%04d", id) }
 
@@ -134,6 +144,7 @@ type env struct {
 	creating   map[int]bool
 	lastWe     map[int]any
 	aborted    bool
+	ap         *app.App
 }
 
 type reentry struct{ n int }
@@ -599,6 +610,7 @@ func runEngScenario(sc *EngScenario) []map[string]any {
 	}
 	f := factory.NewWithRegistries(defReg, &traceReg{e, inner})
 	ap := app.NewApp()
+	e.ap = ap
 	var ordered []any
 	if len(sc.RegOrder) == sc.N {
 		for _, i := range sc.RegOrder {
